@@ -2,7 +2,7 @@
 // Registry harness (engine E): every registered operation x argument shapes x value category of every argument,
 // instantiated with the instrumented element type of C05_common.hpp.  This TU: main + fcppt::algorithm and
 // fcppt::container entries.  Other modules: C05_grid_tree.cpp, C05_optional.cpp, C05_either_variant.cpp,
-// C05_record_tuple_array.cpp, C05_options_parse.cpp.  Move-only instantiations: compile probes C05_probe_mo.cpp.
+// C05_record_tuple.cpp, C05_array.cpp, C05_options.cpp, C05_parse.cpp.  Move-only instantiations: compile probes C05_probe_mo.cpp.
 #include "C05_common.hpp"
 
 #include <fcppt/loop.hpp>
@@ -558,7 +558,9 @@ int main(int argc, char **argv)
   c05::register_grid_tree_shards();
   c05::register_optional_shards();
   c05::register_either_variant_shards();
-  c05::register_record_tuple_array_shards();
-  c05::register_options_parse_shards();
+  c05::register_record_tuple_shards();
+  c05::register_array_shards();
+  c05::register_options_shards();
+  c05::register_parse_shards();
   return vrt::run(argc, argv);
 }
